@@ -46,6 +46,8 @@ def jobs(tier, seed):
                                 zchunks=[[1], [1, 1]] if tier == 'quick' else base['zchunks'], vchunks=[[1], [2]] if tier == 'quick' and gi == 1 else ([[1], [1, 1]] if tier == 'quick' else base['vchunks'])))
                 out.append(dict(base, name='crosstab-%dx%d-g%d-cat_ids' % (shp[0], shp[1], gi), fn='crosstab', agg='count', sel='cat2', shape=[1, 2] if tier == 'quick' else list(shp),
                                 zchunks=[[1], [1, 1]] if tier == 'quick' else base['zchunks'], vchunks=[[1], [2]] if tier == 'quick' and gi == 1 else ([[1], [1, 1]] if tier == 'quick' else base['vchunks'])))
+    # percentage of the zone's valid cells when only one category is requested (the omitted categories still count in the denominator)
+    out.append({'shape': [1, 3], 'zchunks': [[1], [1, 2]], 'vchunks': [[1], [3]], 'name': 'crosstab-1x3-percentage-cat1', 'fn': 'crosstab', 'agg': 'percentage', 'sel': 'cat1'})
     # integer zones / integer values (1x3, uneven chunks)
     b13 = {'shape': [1, 3], 'zchunks': [[1], [1, 2]], 'vchunks': [[1], [2, 1]]}
     out.append(dict(b13, name='stats-1x3-int-zones-count-min-max', fn='stats', stats=['count', 'min', 'max'], sel='none', zdtype='int32'))
@@ -97,6 +99,8 @@ def body(ctx, job):
     if sel == 'cat2':
         cat_ids = [ctx.real('cid1'), ctx.real('cid2')]
         ctx.assume(cat_ids[0] != cat_ids[1])
+    if sel == 'cat1':
+        cat_ids = [ctx.real('cid1')]
     if job['fn'] == 'stats':
         kw = dict(stats_funcs=list(job['stats']), nodata_values=nodata)
         ref = ctx.call('zonal:stats', mk(zones_d, 'zones'), mk(vals_d, 'values'), zone_ids, **kw)
